@@ -1,5 +1,5 @@
 /-
-  C13 (b) — `FileSession` locking, relative to the `filelock.FileLock` contract.
+  C13 (b) — `FileSession` locking and file operations, relative to the `filelock.FileLock` contract.
 
   Contract assumed for `FileLock(path)` (a fresh object, hence a fresh file descriptor, per attempt —
   `flock` is per open file description, so two threads of one process exclude each other exactly
@@ -7,82 +7,163 @@
   the lock of that path, and raises `Timeout` otherwise; `release()` frees it; the lock file is never
   unlinked.  Under this contract threads and processes are the same kind of actor.
 
-  Transcribed (`FileSession.acquire_lock / release_lock / clean_up`, `locking.LockChecker`):
-      try_    `while not checker.expired(): lock = FileLock(path); lock.acquire(timeout=0.1)`
-              success -> `self.lock = lock; self.locked = True`;  Timeout -> `time.sleep(0.1)`, retry
-              (a failed attempt is a stutter step);  `checker.expired()` raising `LockTimeout` is the
-              nondeterministic event `expire i` (only when `lock_timeout` is configured): the call
-              raises, `locked` stays False and the request fails without touching the data
-      load    `pickle.load`            (request)      |   sweeper: `_load(path)`
-      write   handler: counter + 1      (request)      |   sweeper: `os.unlink(path)` if expired
-      save    `pickle.dump`             (request)
+  One model step = one operation on the shared file system / lock (plus the thread-local code up
+  to the next one).  One contended session id; its file is `absent`, `empty` (just truncated by
+  `open(path, 'wb')`) or holds `(counter, expiration time)`.
+
+    request   (`FileSession.__init__`, `acquire_lock`, `Session.load/_load`, handler, `Session.save/_save`,
+               `release_lock`)
+      init    `os.path.exists(path)`         (absent -> the request regenerates a private id: `gone`)
+      acq     `while not checker.expired(): FileLock(path).acquire(timeout=0.1)` — Timeout, sleep, retry
+              is a disabled (stutter) step; `LockChecker.expired()` raising `LockTimeout` is the
+              nondeterministic event `expire i` (only with `lock_timeout`): `locked` stays False, `failed`
+      openr   `open(path, 'rb')`              (IOError -> `_load` returns None -> fresh `{}`)
+      load    `pickle.load(f)`                (EOFError on an empty file -> None; `exp < now` -> `{}`);
+              the handler increments; `Session.save` computes `now + timeout`
+      trunc   `open(path, 'wb')`              (creates / truncates)
+      dump    `pickle.dump((data, exp), f)`
       rel     `self.lock.release()`
-  The sweeper (`clean_up`) takes the same lock in the same way (`self.acquire_lock(path)`), so it is
-  one more actor whose critical section deletes instead of incrementing (`sweeper i = true`).
+
+    sweeper   (`FileSession.clean_up`, restarted for ever; takes the SAME lock via `acquire_lock(path)`)
+      list    `now = self.now(); os.listdir(storage_path)`   (no session file -> next sweep)
+      acq     as above
+      openr   `open(path, 'rb')`              (IOError -> contents None -> release)
+      load    `pickle.load`; `if expiration_time < now:` -> unlink, else release
+      unlink  `os.unlink(path)`               (absent -> OSError propagates after the `finally: release`)
+      rel     `self.release_lock(path)`
+
+    tick d    the clock advances (timeout = 2 units)
+
+  Ghost: `version` counts dumps; a request remembers the version it loaded (`seen`), the sweeper the
+  version it checked; `lost` is set when a dump is based on an overtaken load or when the sweep
+  unlinks a file that was dumped after its check.
 -/
 namespace CpModel.SessionFile
 
-inductive Pc | try_ | load | write | save | rel | done | failed
+inductive Actor
+  | req (i : Nat)
+  | sweep
+  | tick (d : Nat)
+  | expire (i : Nat)     -- LockChecker timer of request i expires
   deriving DecidableEq, Repr
 
-inductive Actor
-  | run (i : Nat)        -- next step of actor i
-  | expire (i : Nat)     -- LockChecker timer of actor i expires
+inductive FileC
+  | absent | empty | data (v exp : Nat)
+  deriving DecidableEq, Repr
+
+inductive Pc | init | acq | openr | load | trunc | dump | rel | done | gone | failed
+  deriving DecidableEq, Repr
+
+inductive SPc | list | acq | openr | load | unlink | rel | crashed
   deriving DecidableEq, Repr
 
 structure Thr where
-  pc : Pc := .try_
-  tmp : Nat := 0
+  pc : Pc := .init
+  tmp : Nat := 0        -- the counter value this request will write
+  texp : Nat := 0
   seen : Nat := 0
   deriving DecidableEq, Repr
 
+structure Sweeper where
+  pc : SPc := .list
+  snow : Nat := 0       -- `now` read at the start of clean_up
+  seen : Nat := 0
+  err : Bool := false   -- an exception is propagating through the `finally: release`
+  deriving DecidableEq, Repr
+
+def timeout : Nat := 2
+
 structure St where
-  flock : Option Nat            -- which actor's FileLock object holds `<id>.lock`
-  data : Nat                    -- counter in the session file (0 after deletion)
+  file : FileC
+  flock : Option Actor          -- whose FileLock object holds `<id>.lock`
   thr : Nat → Thr
-  sweeper : Nat → Bool          -- actor i is a clean_up pass
-  hasTimeout : Nat → Bool       -- actor i runs with `lock_timeout` configured
+  sw : Sweeper
+  hasTimeout : Nat → Bool       -- request i runs with `lock_timeout` configured
+  now : Nat
   version : Nat
   lost : Bool
 
-def init (data : Nat) (sweeper hasTimeout : Nat → Bool) : St :=
-  { flock := none, data := data, thr := fun _ => {}, sweeper := sweeper, hasTimeout := hasTimeout,
-    version := 0, lost := false }
+def init (f : FileC) (hasTimeout : Nat → Bool := fun _ => false) : St :=
+  { file := f, flock := none, thr := fun _ => {}, sw := {}, hasTimeout := hasTimeout,
+    now := 0, version := 0, lost := false }
 
 def setThr (s : St) (i : Nat) (t : Thr) : St :=
   { s with thr := fun j => if j = i then t else s.thr j }
 
+def setSw (s : St) (w : Sweeper) : St := { s with sw := w }
+
+/-- program points between `acquire_lock` and the completion of `release_lock` -/
 def inCS (p : Pc) : Bool :=
   match p with
-  | .load | .write | .save | .rel => true
+  | .openr | .load | .trunc | .dump | .rel => true
   | _ => false
+
+def swInCS (p : SPc) : Bool :=
+  match p with
+  | .openr | .load | .unlink | .rel => true
+  | _ => false
+
+def stepReq (s : St) (i : Nat) : St :=
+  let t := s.thr i
+  match t.pc with
+  | .init => setThr s i { t with pc := if s.file = .absent then .gone else .acq }
+  | .acq =>
+    match s.flock with
+    | none => setThr { s with flock := some (.req i) } i { t with pc := .openr }
+    | some _ => s                      -- Timeout, sleep, retry
+  | .openr =>
+    match s.file with
+    | .absent => setThr s i { t with pc := .trunc, tmp := 1, texp := s.now + timeout, seen := s.version }
+    | _ => setThr s i { t with pc := .load }
+  | .load =>
+    let v := match s.file with
+      | .data v exp => if exp < s.now then 0 else v
+      | _ => 0
+    setThr s i { t with pc := .trunc, tmp := v + 1, texp := s.now + timeout, seen := s.version }
+  | .trunc => setThr { s with file := .empty } i { t with pc := .dump }
+  | .dump =>
+    setThr { s with file := .data t.tmp t.texp, version := s.version + 1,
+                    lost := s.lost || (t.seen != s.version) } i { t with pc := .rel }
+  | .rel =>
+    setThr { s with flock := if s.flock = some (.req i) then none else s.flock } i { t with pc := .done }
+  | .done | .gone | .failed => s
+
+def stepSweep (s : St) : St :=
+  let w := s.sw
+  match w.pc with
+  | .list =>
+    if s.file = .absent then setSw s { w with snow := s.now, err := false }
+    else setSw s { w with pc := .acq, snow := s.now, err := false }
+  | .acq =>
+    match s.flock with
+    | none => setSw { s with flock := some .sweep } { w with pc := .openr }
+    | some _ => s
+  | .openr =>
+    match s.file with
+    | .absent => setSw s { w with pc := .rel }
+    | _ => setSw s { w with pc := .load, seen := s.version }
+  | .load =>
+    match s.file with
+    | .data _ exp => if exp < w.snow then setSw s { w with pc := .unlink, seen := s.version }
+                     else setSw s { w with pc := .rel }
+    | _ => setSw s { w with pc := .rel }
+  | .unlink =>
+    match s.file with
+    | .absent => setSw s { w with pc := .rel, err := true }
+    | _ => setSw { s with file := .absent, lost := s.lost || (w.seen != s.version) } { w with pc := .rel }
+  | .rel =>
+    setSw { s with flock := if s.flock = some .sweep then none else s.flock }
+      { w with pc := if w.err then .crashed else .list }
+  | .crashed => s
 
 def step (s : St) (a : Actor) : St :=
   match a with
+  | .req i => stepReq s i
+  | .sweep => stepSweep s
+  | .tick d => { s with now := s.now + d }
   | .expire i =>
     let t := s.thr i
-    if t.pc = .try_ ∧ s.hasTimeout i = true then setThr s i { t with pc := .failed } else s
-  | .run i =>
-    let t := s.thr i
-    match t.pc with
-    | .try_ =>
-      match s.flock with
-      | none => setThr { s with flock := some i } i { t with pc := .load }
-      | some _ => s                      -- Timeout, sleep, retry
-    | .load => setThr s i { t with pc := .write, tmp := s.data, seen := s.version }
-    | .write =>
-      if s.sweeper i then
-        -- expired session: unlink the file
-        setThr { s with data := 0, version := s.version + 1,
-                        lost := s.lost || (t.seen != s.version) } i { t with pc := .rel }
-      else setThr s i { t with pc := .save, tmp := t.tmp + 1 }
-    | .save =>
-      setThr { s with data := t.tmp, version := s.version + 1,
-                      lost := s.lost || (t.seen != s.version) } i { t with pc := .rel }
-    | .rel =>
-      -- `self.lock.release()`: frees the lock held by this actor's FileLock object
-      setThr { s with flock := if s.flock = some i then none else s.flock } i { t with pc := .done }
-    | .done | .failed => s
+    if t.pc = .acq ∧ s.hasTimeout i = true then setThr s i { t with pc := .failed } else s
 
 def run (s : St) : List Actor → St
   | [] => s
@@ -91,5 +172,15 @@ def run (s : St) : List Actor → St
 def trace (s : St) : List Actor → List St
   | [] => []
   | a :: rest => let s' := step s a; s' :: trace s' rest
+
+def enabled (s : St) (a : Actor) : Bool :=
+  match a with
+  | .req i =>
+    match (s.thr i).pc with
+    | .acq => s.flock.isNone
+    | .done | .gone | .failed => false
+    | _ => true
+  | .sweep => if s.sw.pc = .acq then s.flock.isNone else s.sw.pc != .crashed
+  | _ => true
 
 end CpModel.SessionFile
